@@ -35,9 +35,9 @@ type FailCase struct {
 	// ProjDir names the directory holding the spokfile ("" = proj)
 	ProjDir string `json:"proj_dir,omitempty"`
 	// Invoke: how spok is pointed at the project (sandbox.Box.Invoke)
-	Invoke  string   `json:"invoke,omitempty"`
+	Invoke string `json:"invoke,omitempty"`
 	// Outputs: "files" = standard output and error are regular files (sandbox.Box.FileOutputs)
-	Outputs string `json:"outputs,omitempty"`
+	Outputs string   `json:"outputs,omitempty"`
 	Tasks   []FTask  `json:"tasks"`
 	Request []string `json:"request"`
 	Flags   []string `json:"flags"`
